@@ -7,6 +7,14 @@ PY = "/venv/bin/python"
 
 # property id -> (design section, technique, level text, level note)
 BUILT = {
+    "C05": ("§4.5", "input-trie enumeration of the tokenizer plus run families; deviation-bounded exhaustive "
+            "enumeration of token-prefixes and single-token edits (k = 0, 1, 2) of carrier files on the real pipeline "
+            "under a deterministic fuel counter",
+            "Every string of the bounded tries and run families must lex without exception; every carrier, every token "
+            "prefix (with/without final NL) and every delete/insert/replace/swap over a 24-kind token alphabet must end in "
+            "a verdict or CParsingError -- never another exception, never fuel exhaustion; representatives also through main().",
+            "Fuel (steps of Context.peek_token / Lexer.raw_peek) stands for termination; a loop that calls neither would only "
+            "be caught by the wall-clock limit of the harness."),
     "C17": ("§4.17", "differential exhaustive enumeration: every opaque-text site of the carrier/enriched files x every "
             "same-width replacement built from code-like lexemes (deviation bound 1, pairs in thorough)",
             "Two runs of the real pipeline per case; the (level, code, line, col) diagnostics must be identical.",
